@@ -633,6 +633,16 @@ def unit(arg):
         acc.state_hashes = None
         for label, blob in itertools.islice(mutation_space(arg['tier'], arg['which']), arg['lo'], arg['hi']):
             v, summary = run_robust(arg['fe'], blob)
+            if not v and arg['which'] in ('long', 'glued', 'trunc', 'edits'):
+                # the same delivery with the library's DEBUG logging turned on (every log line is formatted)
+                from mc.ndnenv import debug_logging
+                with debug_logging():
+                    v2, summary2 = run_robust(arg['fe'], blob)
+                acc.evaluations += 1
+                acc.state_count += 1
+                v = [(sg + '|debug-logging', w + ' (DEBUG logging enabled)') for sg, w in v2]
+                if summary2 != summary and not v:
+                    v.append((f"C06|robust|{arg['fe']}|behaviour-depends-on-logging", f'{label}: {summary} without, {summary2} with DEBUG logging'))
             acc.evaluations += 1
             acc.state_count += 1
             acc.transitions += 3
@@ -651,4 +661,9 @@ def replay(case):
         v = run_framing(case['case'], case['d'])
         return [{'sig': s, 'what': w} for s, w, _ in v]
     v, _ = run_robust(case['fe'], bytes.fromhex(case['hex']))
+    if not v:
+        from mc.ndnenv import debug_logging
+        with debug_logging():
+            v2, _ = run_robust(case['fe'], bytes.fromhex(case['hex']))
+        v = [(sg + '|debug-logging', w) for sg, w in v2]
     return [{'sig': s, 'what': w} for s, w in v]
